@@ -40,7 +40,6 @@ ASSUMPTIONS = [
 MAX_DYADS = 40
 TOL = 1e-12
 _FAIL = object()
-VK = ["r", "c", "z", "q", "i", "cr", "zc"]
 
 
 def budget(tier):
@@ -486,10 +485,7 @@ class _Run:
             if d is not _FAIL and not all(np.array_equal(a, b) for a, b in zip(us + vs, us0 + vs0)):
                 self.bad("operand_changed:new", "constructor changed the vectors passed in")
             mdl, s = _outer_sum(us0, vs0, (n, m)), _mag(us0, vs0)
-            if not op["gs"] and not any(np.any(u) and np.any(v) for u, v in zip(us0, vs0)):
-                # every dyad has a zero factor: nothing is stored. Without shape= the documented rule still takes the
-                # shape from the first vectors seen, which happens before the zero test.
-                pass
+            # (dyads with a zero factor are not stored; without shape= the shape is still taken from the vectors)
         if d is _FAIL:
             return None
         e = {"d": d, "m": mdl, "s": float(s)}
